@@ -271,6 +271,8 @@ func alphabet() []inv {
 	// command keeps its own result
 	addM("Pipelined", "pipe2", A(),
 		[]any{"GET", "nokey"}, []any{"INCR", "p"}, []any{"HGET", "h", "f1"}, []any{"LPOP", "nokey"}, []any{"SET", "p2", "v"}, []any{"INCR", "h"})
+	addM("Pipelined", "pipe2b", A(),
+		[]any{"SET", "p3", "v"}, []any{"GET"}, []any{"INCR", "p"})
 	// blocking pops through a blocking node (enabled only while the list is non-empty:
 	// an empty list would block for real seconds)
 	addM("BLPop", "blpop", A("l"), "LPOP", "l")
